@@ -126,6 +126,15 @@ simple("C04", "exploration",
        batches=(12, 16), timeout=(900, 3400))
 
 
+simple("C10", "exploration",
+       "seeded random stall scenarios: never-stop hwmon (configured / measured limits), file, cmd and model fans x window n in {1,2,3,5,10,20,50} x prior RPM average in "
+       "{0,1,300,1500,10000} x plant threshold in {min+1, mid, max, never spins} x poll:cycle ratio {1:1, 5:1, 1:5} x {direct, rate-limited}; logical steps only. Oracle: every raise "
+       "comes within B(n)=25n+25 polls of the first 0 reading / the previous raise while the fan reports 0 RPM; at the maximum the cycle ends with ErrFanStalledAtMaxPwm and not before; "
+       "non-trivial = scenario in which the fan really stalled and was raised until it span or was reported stalled at max; distinct by (fan, window, threshold, prior, ratio, algorithm, #raises, outcome)",
+       TRUST_L1 + ["liveness restated as bounded progress in RPM polls: B(n) = 25*n + 25"],
+       batches=(8, 16))
+
+
 def c14(p, tier, work, t0, replay):
     _src, vh = build_vh(work)
     q = tier == "quick"
